@@ -268,6 +268,28 @@ func (vc *VC) atPointAsserts(fr *Frame, c *ssa.CallCommon, pseudo string, args [
 				}
 			}
 		}
+		// inside a range loop: #i is the index of the last completed iteration
+		// (as in the loop's invariants; the current one is #i + 1)
+		if _, ok := names["#i"]; !ok {
+			for h, li := range fr.loops {
+				if !li.body[site.Block()] && h != site.Block() {
+					continue
+				}
+				for _, in := range h.Instrs {
+					phi, ok := in.(*ssa.Phi)
+					if !ok {
+						break
+					}
+					if phi.Comment == "rangeindex" {
+						if v, ok := fr.vals[phi]; ok {
+							if cur, has := names["#i"]; !has || cur == nil {
+								names["#i"] = v
+							}
+						}
+					}
+				}
+			}
+		}
 		// the call's operands: arg0 is the receiver of a method call
 		k := 0
 		if c != nil && c.IsInvoke() {
@@ -1321,6 +1343,10 @@ func (vc *VC) appendOp(fr *Frame, c *ssa.CallCommon, args []*Val, pos token.Pos)
 	if k, ok := vc.lenHint[t.T]; ok {
 		fixed = k
 		n = fmt.Sprint(k)
+	}
+	// `atcall append ...`: arg0 is the slice appended to, arg1 what is appended
+	if site := vc.curInstr; site != nil {
+		vc.atPointAsserts(fr, nil, "append", []*Val{s, t}, site, pos)
 	}
 	heap := vc.get(hn, hs)
 	vc.markIndex(fmt.Sprintf("(s_len %s)", s.T))
